@@ -683,6 +683,102 @@ fn check_fold(op: AluOp, x: i32, y: i32, acc: &mut Acc) {
     }
 }
 
+/// Table 4: constant folding as the *analysis* performs it (not only `MathOp::operate`): chunks of
+/// `li t0, x; li t1, y; op t2, t0, t1` (and the forms with the zero register as an operand and with an
+/// immediate) are analysed, and wherever the analysis claims a constant for the result it must be
+/// the RV32IM value.
+fn check_pipeline_folds(ops: &[AluOp], acc: &mut Acc) {
+    use crate::graph::{GraphView, Val};
+    struct Probe {
+        ins_index: usize,
+        text: String,
+        want: i32,
+        class: &'static str,
+        form: &'static str,
+    }
+    for op in ops {
+        let mut probes: Vec<Probe> = Vec::new();
+        let mut p = Program::default();
+        p.label("main");
+        let mut n_ins = 0usize;
+        let mut push = |p: &mut Program, i: Ins| {
+            p.push(i);
+            n_ins += 1;
+            n_ins - 1
+        };
+        let has_imm = IMM_ALU.contains(op);
+        let is_shift = matches!(op, AluOp::Sll | AluOp::Srl | AluOp::Sra);
+        for x in GRID {
+            for y in GRID {
+                let want = op.eval(x as u32, y as u32) as i32;
+                let cls = operand_class(*op, x, y);
+                // register-register
+                push(&mut p, Ins::li(5, x));
+                push(&mut p, Ins::li(6, y));
+                let k = push(&mut p, Ins::Alu { op: *op, rd: 7, rs1: 5, rs2: 6 });
+                probes.push(Probe { ins_index: k, text: format!("{} t2, t0(={x}), t1(={y})", op.mnemonic()), want, class: cls, form: "reg-reg" });
+                if y == 0 {
+                    let k = push(&mut p, Ins::Alu { op: *op, rd: 7, rs1: 5, rs2: ZERO });
+                    probes.push(Probe { ins_index: k, text: format!("{} t2, t0(={x}), zero", op.mnemonic()), want, class: cls, form: "reg-zero" });
+                }
+                if x == 0 {
+                    let k = push(&mut p, Ins::Alu { op: *op, rd: 7, rs1: ZERO, rs2: 6 });
+                    probes.push(Probe { ins_index: k, text: format!("{} t2, zero, t1(={y})", op.mnemonic()), want, class: cls, form: "zero-reg" });
+                }
+                let imm_ok = if is_shift { (0..32).contains(&y) } else { (-2048..2048).contains(&y) };
+                if has_imm && imm_ok {
+                    let k = push(&mut p, Ins::AluI { op: *op, rd: 7, rs1: 5, imm: y });
+                    probes.push(Probe { ins_index: k, text: format!("{}i t2, t0(={x}), {y}", op.mnemonic()), want, class: cls, form: "reg-imm" });
+                    if x == 0 {
+                        let k = push(&mut p, Ins::AluI { op: *op, rd: 7, rs1: ZERO, imm: y });
+                        probes.push(Probe { ins_index: k, text: format!("{}i t2, zero, {y}", op.mnemonic()), want, class: cls, form: "zero-imm" });
+                    }
+                }
+            }
+        }
+        p.push(Ins::mv(A0, 7));
+        p.push(Ins::li(A7, 1));
+        p.push(Ins::Ecall);
+        p.push(Ins::li(A7, 10));
+        p.push(Ins::Ecall);
+        let pr = crate::print::print(&p, &crate::print::Style::base(), &mut Rng::new(1));
+        acc.evaluations += 1;
+        let a = match super::common::analyze(&pr.text) {
+            Ok(a) => a,
+            Err(pi) => {
+                acc.violation(format!("C08|pipeline-fold|{}|panic", op.mnemonic()), format!("analysing the folding table of {} panics at {}: {}", op.mnemonic(), pi.site(), pi.msg), json!({"op": op.mnemonic()}));
+                continue;
+            }
+        };
+        let Ok(cfg) = &a.cfg else {
+            acc.count("pipeline_fold_tables_not_analysed", 1);
+            continue;
+        };
+        let gv = GraphView::of(cfg);
+        let by_line: std::collections::HashMap<usize, &crate::graph::NodeView> = gv.nodes.iter().filter(|n| n.kind == "Arith" || n.kind == "IArith").map(|n| (n.line, n)).collect();
+        for pb in &probes {
+            let line = pr.ins[pb.ins_index].line;
+            let Some(node) = by_line.get(&line) else { continue };
+            acc.count("pipeline_fold_probes", 1);
+            match node.reg_out.get(&7) {
+                Some(Val::Const(c)) => {
+                    acc.count("pipeline_fold_claims", 1);
+                    acc.note("pipeline_fold_forms", format!("{} {}", op.mnemonic(), pb.form));
+                    if *c != pb.want {
+                        acc.violation(
+                            format!("C08|pipeline-fold|{}|{}|{}", op.mnemonic(), pb.form, pb.class),
+                            format!("the analysis claims {c} for `{}`, RV32IM gives {}", pb.text, pb.want),
+                            json!({"op": op.mnemonic(), "instruction": pb.text, "claimed": c, "reference": pb.want}),
+                        );
+                    }
+                }
+                _ => acc.count("pipeline_fold_no_claim", 1),
+            }
+        }
+        acc.count("pipeline_fold_tables", 1);
+    }
+}
+
 const GRID: [i32; 24] = [
     0, 1, -1, 2, -2, 3, 31, 32, 33, 63, 64, -31, -32, -33, 0x7ff, -0x800, 0xffff, 0x10000, i32::MAX,
     i32::MIN, i32::MAX - 1, i32::MIN + 1, 0x5555_5555, -0x5555_5556,
@@ -693,7 +789,8 @@ pub fn run(ctx: &Ctx) -> i32 {
         ctx,
         "table 1/2: every mnemonic x operand form printed with representative registers/immediates, parsed by the real parser, \
          decoded nodes executed on the reference machine against the official expansion from boundary + random states; \
-         table 3: MathOp::operate vs reference RV32IM ALU on the full 24x24 boundary grid per operator + random pairs. \
+         table 3: MathOp::operate vs reference RV32IM ALU on the full 24x24 boundary grid per operator + random pairs; \
+         table 4: the same grid through the whole analysis (`li; li; op` chunks with register, zero-register and immediate operand forms): every constant the analysis claims for a result must be the RV32IM value. \
          distinct_nontrivial = distinct instruction texts decoded and compared + (it does not count fold pairs)",
     );
     rep.assume("the reference ALU and expansions in the harness are written from the RISC-V unprivileged spec / assembler manual");
@@ -725,6 +822,7 @@ pub fn run(ctx: &Ctx) -> i32 {
                 }
             }
             acc.count("fold_grid_complete_operators", 1);
+            check_pipeline_folds(&[*op], &mut acc);
             let per_op = random_pairs / ALL_ALU.len() as u64;
             for _ in 0..per_op {
                 let x = rng.interesting_i32();
@@ -745,6 +843,8 @@ pub fn run(ctx: &Ctx) -> i32 {
     );
     rep.require("semantic_cases", 500);
     rep.require("fold_grid_complete_operators", 18);
+    rep.require("pipeline_fold_tables", 18);
+    rep.require("pipeline_fold_claims", 5000);
     rep.acc.sample(json!({"fold": "sll 1, 32 -> reference 1 (shift amount masked to 5 bits)"}));
     rep.finish()
 }
